@@ -692,6 +692,18 @@ def check_C06(res, tier, seed):
     finish_proof_side(c, res, 'C06')
 
 
+def run_khandle(c, res, pid, tier, seed):
+    try:
+        import khandle
+        hcov, hbad = khandle.run(c.build, seed, 300 if tier == 'quick' else 900)
+        res.coverage['k_handle'] = hcov
+        for b in hbad[:3]:
+            res.violation(pid + ': K-handle: %s' % b['why'], {'kind': 'handle-manager-correspondence', 'ops': b['ops'], 'implementation_printed': b['impl'], 'coq_case': b.get('coq_case', ''),
+                                                           'how': 'echo "<ops>" | .cache/bin/hmdrv   (ops: s slot ptr | o slot hsess priv ptr | t slot priv ptr | d h | c h | a slot | l slot); model: coq/Conc/HandleLife.v `obs`'})
+    except Exception as e:
+        res.violation(pid + ': K-handle could not run: %s' % str(e)[:300], {'kind': 'handle-manager-correspondence', 'theorem_or_correspondence': 'K-handle (coq/Conc/HandleLife.v vs src/lib/handle_mgr/HandleManager.cpp)', 'error': str(e)[:2000]}, no_input=True)
+
+
 def check_C18(res, tier, seed):
     import multiprocessing
     c = prepare('C18', res)
@@ -758,15 +770,7 @@ def check_C18(res, tier, seed):
                                     'what': 'private and public CKA_VALUE reads, search, AES-ECB encryption under a private token key; each thread its own session; answers compared with a sequential run; every other run uses CKF_OS_LOCKING_OK after an unlocked C_Initialize(NULL) / C_Finalize cycle instead of mutex callbacks; churn runs: two threads create and destroy session objects while two threads search and read labels - only a crash or a hang counts there'},
                          'scenarios': info, 'findings_by_class': byclass, 'traces_validated_against_impl': len(jobs),
                          'not_covered': 'more than two threads under schedule control, more than one stop point per call, OS locking (CKF_OS_LOCKING_OK) instead of callbacks, data races without a visible effect (no ThreadSanitizer run), SQLite backend'})
-    try:
-        import khandle
-        hcov, hbad = khandle.run(c.build, seed, 300 if tier == 'quick' else 900)
-        res.coverage['k_handle'] = hcov
-        for b in hbad[:3]:
-            res.violation('C18: K-handle: %s' % b['why'], {'kind': 'handle-manager-correspondence', 'ops': b['ops'], 'implementation_printed': b['impl'], 'coq_case': b.get('coq_case', ''),
-                                                           'how': 'echo "<ops>" | .cache/bin/hmdrv   (ops: s slot ptr | o slot hsess priv ptr | t slot priv ptr | d h | c h | a slot | l slot); model: coq/Conc/HandleLife.v `obs`'})
-    except Exception as e:
-        res.violation('C18: K-handle could not run: %s' % str(e)[:300], {'kind': 'handle-manager-correspondence', 'theorem_or_correspondence': 'K-handle (coq/Conc/HandleLife.v vs src/lib/handle_mgr/HandleManager.cpp)', 'error': str(e)[:2000]}, no_input=True)
+    run_khandle(c, res, 'C18', tier, seed)
     finish_proof_side(c, res, 'C18')
 
 
@@ -846,6 +850,7 @@ def check_C11(res, tier, seed):
     st2, distinct2, samples2 = run_kcrypto(c, res, 'C11', 'seq_reject', 100 if tier == 'quick' else 2500, seed, stream='K-reject', accept=lambda m: 'disappeared' in m)
     res.coverage.update({'evaluations': stats['ops'] + st2['calls'], 'distinct_nontrivial': stats['distinct_traces'] + distinct2, 'rule': (RULE % 'handles') + '; K-reject: rejected creating / changing calls must not make any object disappear',
                          'samples': samples, 'k_api': stats, 'k_reject': st2, 'traces_validated_against_impl': stats['sequences'] + st2['sequences']})
+    run_khandle(c, res, 'C11', tier, seed)
     finish_proof_side(c, res, 'C11')
 
 
